@@ -283,6 +283,28 @@ fn alphabet() -> Vec<Stmt> {
             inner: &[],
             model: |m| if m.vars.contains_key("b") { Exp::Fail } else { Exp::Ok(Some(MV::Int(5))) },
         },
+        // ... and the same with a captured name in the body (the call must still get a scope of its own)
+        Stmt {
+            src: "(() => (b = a))()",
+            targets: &[],
+            inner: &[],
+            model: |m| {
+                if !m.vars.contains_key("a") || m.vars.contains_key("b") {
+                    Exp::Fail
+                } else {
+                    match m.vars.get("a") {
+                        Some(MV::Int(a)) => Exp::Ok(Some(MV::Int(*a))),
+                        _ => Exp::Ok(None),
+                    }
+                }
+            },
+        },
+        Stmt {
+            src: "[() => [a, (b = [a])]][0]()",
+            targets: &[],
+            inner: &[],
+            model: |m| if !m.vars.contains_key("a") || m.vars.contains_key("b") { Exp::Fail } else { Exp::Ok(None) },
+        },
         Stmt {
             src: "[() => (a = 1)][0]() + (() => (b = 2) * b)()",
             targets: &[],
@@ -636,7 +658,7 @@ pub fn run(ctx: &Ctx, replay: Option<&J>) -> i32 {
     ctx.set("fixpoint_reached", json!(ctx.caps.lock().unwrap().is_empty()));
     ctx.set(
         "trusted_base",
-        json!(["reference model of the 54-statement alphabet in mc/src/c03.rs", "canonical state key (sorted bindings + outputs)"]),
+        json!(["reference model of the 56-statement alphabet in mc/src/c03.rs", "canonical state key (sorted bindings + outputs)"]),
     );
     ctx.assume("names and values outside the statement alphabet are not explored");
     // vacuity guards
